@@ -67,6 +67,14 @@ def main(argv):
         print('CHECKER-CRASH: cannot list units of %s\n%s' % (prop, p.stdout[-3000:] + p.stderr[-3000:]))
         write_evidence(evidence_path, prop, tier, seed, [], [], time.time() - t0, crash='cannot load contracts')
         return 3
+    # bounded native stand-in (replay harness in search mode), started now and collected at the end
+    bounded_fut = None
+    bex = cf.ThreadPoolExecutor(max_workers=1)
+    if os.path.exists(os.path.join(ROOT, 'replay', prop + '.py')) and os.environ.get('PYVC_NO_BOUNDED') != '1':
+        seedfile = os.path.join(ROOT, 'replays', '%s-bounded-search.json' % prop)
+        json.dump({'property': prop, 'obligation': 'bounded-native-search', 'inputs': None}, open(seedfile, 'w'))
+        benv = dict(env); benv['VERIF_BOUNDED_BUDGET'] = '60' if tier == 'thorough' else '20'
+        bounded_fut = bex.submit(native_replay, prop, None, {}, seedfile, benv, 600)
     results = []
     jobs = int(os.environ.get('PYVC_JOBS', '16'))
     nsh = max(1, min(6, jobs // max(1, len(units))))
@@ -124,6 +132,19 @@ def main(argv):
     # some function under contract of this property differs from the unchanged tree (callers are affected through
     # callee signatures/defaults, so the question is asked per property, not per unit)
     any_changed = any(baseline['units'].get(r.get('unit'), {}).get('sha256') not in (None, r.get('sha256')) for r in results)
+
+    if bounded_fut is not None:
+        nat = bounded_fut.result()
+        e = {'name': 'bounded-native-search', 'level': 'bounded', 'tried': nat.get('tried'), 'detail': nat.get('detail'),
+             'bound': nat.get('bound', 'see replay/%s.py: enumerated small scope + seeded random cases' % prop)}
+        if nat.get('reproduced'):
+            e['status'] = 'violation'; e['replay'] = nat; e['inputs'] = nat.get('witness')
+            e['name'] = 'bounded-native-search:' + str((nat.get('witness') or {}).get('kind', (nat.get('witness') or {}).get('what', 'failing-input')))[:80]
+            e['detail'] = json.dumps(nat.get('witness'), default=str)[:1500]
+        elif nat.get('reproduced') is None:
+            e['status'] = 'undecided'
+        else: e['status'] = 'ok'
+        extras.append(e)
 
     known = load_known()
     rc = 0
@@ -232,11 +253,12 @@ def main(argv):
 def write_evidence(path, prop, tier, seed, results, extras, wall, violations=0, known=(), total=0, discharged=0, undecided=(), crash=None):
     funcs = []; trusted = set(); assumptions = set(); samples = []; by = {}; solver_ms = 0
     for r in results:
-        funcs.append({'unit': r['unit'], 'file': r.get('file'), 'function': r.get('qual'), 'lines': r.get('lines'),
+        funcs.append({'unit': r['unit'], 'under_contract': not r.get('watch_only', False), 'file': r.get('file'), 'function': r.get('qual'), 'lines': r.get('lines'),
                       'sha256': r.get('sha256'), 'status': r['status'], 'obligations': len(r.get('obligations', [])),
                       'discharged': sum(1 for o in r.get('obligations', []) if o['verdict'] == 'discharged'),
                       'paths': (r.get('vacuity') or {}).get('paths'), 'canary': r.get('canary'), 'wall_s': r.get('wall_s'),
                       'detail': r.get('detail')})
+        if r.get('watch_only'): trusted.add('UNVERIFIED surroundings: %s::%s (%s)' % (r.get('file'), r.get('qual'), r.get('note')))
         for t in r.get('trusted', []): trusted.add(t)
         for a in r.get('assumptions', []): assumptions.add(a)
         for a in r.get('axioms', []): trusted.add('axiom set: ' + a)
